@@ -367,3 +367,27 @@ Definition rdpot (c : config) (s : st) : N :=
   (qsum (wdr c) (q (rd s)) + qsum (wdr c) (dpend (dd s)) + zr c * N.of_nat (toks s))%N.
 Definition ctl_ok (c : config) (x : scenario) : Prop :=
   (cspot c (init x) <= cap c)%N /\ (rdpot c (init x) <= cap c)%N.
+
+(* Data traffic bound (premise of C09_holds_below_capacity): everything that can ever be queued in the
+   two data-carrying channels - source replies (rs) and destination commands (cd) - fits in the capacity. *)
+Definition dw (c : config) (r : sresp) : N := match r with SChunk n _ => wdc c (DData n) | SErr => 0%N end.
+Definition filew (c : config) (f : file) : N := (wsr c SErr + qsum (wsr c) (fchunks f))%N.
+Fixpoint filesw (c : config) (l : list file) : N := match l with [] => 0%N | f :: r => (filew c f + filesw c r)%N end.
+Fixpoint filesdw (c : config) (l : list file) : N := match l with [] => 0%N | f :: r => (qsum (dw c) (fchunks f) + filesdw c r)%N end.
+Definition handw (c : config) (p : bpc) : N := match p with BFwd n _ => wdc c (DData n) | _ => 0%N end.
+Definition ctlw (c : config) (p : bpc) : N :=
+  match p with
+  | BEnd | BJoinD => 0%N
+  | BShutD | BJoinS | BShutS | BWait => wdc c DShut
+  | _ => (wdc c DDone + wdc c DShut)%N
+  end.
+Definition rspot (c : config) (s : st) : N :=
+  (qsum (wsr c) (q (rs s)) + qsum (wsr c) (spend (sd s)) + filesw c (sfiles (sd s))
+   + wsr c SErr * N.of_nat (length (q (cs s)) + length (bfiles (bo s)) + spd (pc (bo s))))%N.
+Definition cdpot (c : config) (s : st) : N :=
+  (qsum (wdc c) (q (cd s)) + handw c (pc (bo s)) + qsum (dw c) (q (rs s)) + qsum (dw c) (spend (sd s))
+   + filesdw c (sfiles (sd s)) + qsum (fun n => wdc c (DData n)) (bpre (bo s)) + ctlw c (pc (bo s)))%N.
+
+Definition data_ok (c : config) (x : scenario) : Prop :=
+  (rspot c (init x) <= cap c)%N /\ (cdpot c (init x) <= cap c)%N.
+
